@@ -15,6 +15,11 @@
 
 use crate::compare::utils::distance_on_ring_mod;
 
+#[cfg(fast_tlsh_verif)]
+#[allow(missing_docs)]
+#[allow(clippy::missing_docs_in_private_items)]
+pub(crate) mod verif_hooks;
+
 /// The length distance multiplier as an ambiguously-typed literal.
 macro_rules! length_mult {
     () => {
